@@ -28,7 +28,7 @@ pub fn matching(authid: &[u8], keys: &Vec<[u8; 16]>) -> Result<Option<[u8; 16]>,
         let crc32 = vmess::crc32(&cur[..12]);
         let (l, r) = cur.split_at(12);
         let now = i64::from_be_bytes(l[..8].try_into().unwrap());
-        if i32::from_be_bytes(r.try_into().unwrap()) == crc32 as i32 && (now - vmess::now()?).abs() <= 120 {
+        if i32::from_be_bytes(r.try_into().unwrap()) == crc32 as i32 && now.abs_diff(vmess::now()?) <= 120 {
             return Ok(Some(*key));
         }
     }
